@@ -39,6 +39,10 @@ def scenarios(quick: bool) -> list[tuple[dict, int]]:
             "dev": alld + ("call", "foreign"),
         }
         sc.append((p, 1 if quick else 2))
+    # traffic of a block-listed device (dropped by the protocol's filter, never decoded) while commands are in flight
+    for cmd in ("rq30c9_01", "w2309_01"):
+        p = {"qos_mode": False, "callers": [caller(cmd, timeout=20.0), caller("rq30c9_02", timeout=20.0)], "dev": ENV + ("foreign",), "exclude": ["04:000001"], "foreign_kinds": ["blocked_bad_idx", "blocked_ok"]}
+        sc.append((p, 2))
     # two callers sending the SAME frame (a poller re-sending its stored command; two entities asking the same thing): a late or
     # duplicate echo/reply of the first is, byte for byte, an echo/reply of the second - in every state, incl. as it is dequeued
     for to in (0.5001, 20.0):
